@@ -93,7 +93,10 @@ func (node *ListNode) Size() int {
 func (node *ListNode) Variables() []string {
 	result := []string{}
 
-	var posVar map[int]string = node.variablesSwapKeyValue()
+	var posVar map[int]string // stays nil (reads as empty) for a list without own variables
+	if len(node.variables) > 0 {
+		posVar = node.variablesSwapKeyValue()
+	}
 	for i, item := range node.values {
 		if _, ok := item.(emptyItemNode); ok {
 			// Contains item node variable
